@@ -13,6 +13,7 @@ import (
 	"os"
 	"sort"
 	"strings"
+	"sync"
 	"syscall"
 	"testing/synctest"
 	"time"
@@ -78,8 +79,9 @@ type End struct {
 	finPending bool  // peer closed: EOF follows the in-flight bytes
 	rstPending bool  // peer reset
 	EOFSeen    bool
-	Closed     bool // closed locally
-	rdl, wdl   time.Time
+	Closed     bool      // closed locally
+	rdl, wdl   time.Time // guarded by dlmu: set by the code under test without a round trip through the scheduler
+	dlmu       sync.Mutex
 
 	Opaque bool // journal lengths only (content differs legitimately between executions)
 	Auto   bool // transparent link: ops complete eagerly, not journaled
@@ -277,22 +279,41 @@ func (e *End) LocalAddr() net.Addr { return e.Local }
 //go:norace
 func (e *End) RemoteAddr() net.Addr { return e.Remote }
 
+// Deadlines are stored at once, without parking the caller in the scheduler: net/http sets
+// them while it holds a mutex of its own (connReader), and a goroutine that is parked with a
+// lock held keeps every goroutine that wants that lock in a non-durable wait, which freezes the
+// bubble.  The scheduler reads them only when the world is quiescent, so what it sees is as
+// deterministic as before.
+//
 //go:norace
 func (e *End) SetDeadline(t time.Time) error {
-	e.s.call(&op{kind: opSetRDL, e: e, t: t})
-	e.s.call(&op{kind: opSetWDL, e: e, t: t})
+	e.dlmu.Lock()
+	e.rdl, e.wdl = t, t
+	e.dlmu.Unlock()
 	return nil
 }
 
 //go:norace
+func (e *End) deadlines() (r, w time.Time) {
+	e.dlmu.Lock()
+	r, w = e.rdl, e.wdl
+	e.dlmu.Unlock()
+	return
+}
+
+//go:norace
 func (e *End) SetReadDeadline(t time.Time) error {
-	e.s.call(&op{kind: opSetRDL, e: e, t: t})
+	e.dlmu.Lock()
+	e.rdl = t
+	e.dlmu.Unlock()
 	return nil
 }
 
 //go:norace
 func (e *End) SetWriteDeadline(t time.Time) error {
-	e.s.call(&op{kind: opSetWDL, e: e, t: t})
+	e.dlmu.Lock()
+	e.wdl = t
+	e.dlmu.Unlock()
 	return nil
 }
 
@@ -591,10 +612,10 @@ func (s *Sim) intake(o *op) {
 		o.fn()
 		close(o.wake)
 	case opSetRDL:
-		o.e.rdl = o.t
+		o.e.SetReadDeadline(o.t)
 		close(o.wake)
 	case opSetWDL:
-		o.e.wdl = o.t
+		o.e.SetWriteDeadline(o.t)
 		close(o.wake)
 	case opLClose:
 		o.l.closed = true
@@ -653,13 +674,13 @@ func (s *Sim) expireOne() bool {
 	for _, o := range append([]*op(nil), s.pending...) {
 		switch o.kind {
 		case opRead:
-			if !o.e.rdl.IsZero() && !now.Before(o.e.rdl) {
+			if rdl, _ := o.e.deadlines(); !rdl.IsZero() && !now.Before(rdl) {
 				o.err = timeoutErr{"read"}
 				s.finish(o)
 				return true
 			}
 		case opWrite:
-			if !o.e.wdl.IsZero() && !now.Before(o.e.wdl) {
+			if _, wdl := o.e.deadlines(); !wdl.IsZero() && !now.Before(wdl) {
 				o.err = timeoutErr{"write"}
 				o.n = o.off
 				s.finish(o)
@@ -689,9 +710,11 @@ func (s *Sim) nextDeadline() time.Time {
 	for _, o := range s.pending {
 		switch o.kind {
 		case opRead:
-			upd(o.e.rdl)
+			r, _ := o.e.deadlines()
+			upd(r)
 		case opWrite:
-			upd(o.e.wdl)
+			_, w := o.e.deadlines()
+			upd(w)
 		case opDial:
 			upd(o.t)
 		}
